@@ -85,7 +85,7 @@ def NodeEq (F : Facts) (v2 : Bool) (g1 g2 : Nat) : Prop :=
   | .struct fs, .struct gs => All2 (FieldEq F v2) fs gs
   | .sig ps rs va rc, .sig ps' rs' va' rc' =>
       All2 (ParamEq F v2) ps ps' ∧ All2 (ParamEq F v2) rs rs' ∧ va = va'
-  | .iface _, .iface _ => True
+  | .iface ms, .iface ms' => ms.map (fun m => (m.name, nameOf v2 m.str)) = ms'.map (fun m => (m.name, nameOf v2 m.str))
   | .named a _ _ _, .named b _ _ _ => KidEq F v2 a b
   | .basic _, .basic _ => True
   | .other, .other => True
@@ -220,6 +220,36 @@ theorem desc_objEq {F : Facts} {v2 : Bool} {u1 u2 : U} {ob1 ob2 : Obj} {g1 g2 : 
       (fun h => by rw [d1] at h; cases h), (fun h => by rw [d1] at h; cases h), (fun h => by rw [d1] at h; cases h),
       (fun h => by rw [d1] at h; cases h)⟩
 
+/-- **interfaces_alike**: objects described by interface nodes with the same method list (names and printed names) have
+corresponding method tables: the same method names, bound to objects registered under one name in either universe -/
+theorem desc_iface_methods {F : Facts} {v2 : Bool} {u1 u2 : U} {ob1 ob2 : Obj} {g1 g2 : Nat} {ms1 ms2 : List GMethod}
+    (hn1 : F.node g1 = .iface ms1) (hn2 : F.node g2 = .iface ms2) (hne : ms1 ≠ [])
+    (d1 : Desc F v2 u1 ob1 g1) (d2 : Desc F v2 u2 ob2 g2) (he : NodeEq F v2 g1 g2) :
+    ∀ (k : Str) (r1 : Nat), AL.lookup k ob1.methods = some r1 → ∃ r2, AL.lookup k ob2.methods = some r2 ∧ Linked u1 u2 r1 r2 := by
+  unfold Desc at d1 d2
+  unfold NodeEq at he
+  simp only [hn1, hn2] at d1 d2 he
+  have hne2 : ms2 ≠ [] := by
+    intro e
+    rw [e] at he
+    simp only [List.map_nil, List.map_eq_nil_iff] at he
+    exact hne he
+  obtain ⟨a1, b1⟩ := d1.2 hne
+  obtain ⟨a2, _⟩ := d2.2 hne2
+  intro k r1 hl
+  obtain ⟨m1, hm1, hk1⟩ := b1 k r1 hl
+  -- the method of the same position in the other list
+  have hmem : (m1.name, nameOf v2 m1.str) ∈ ms2.map (fun m => (m.name, nameOf v2 m.str)) := by
+    rw [← he]; exact List.mem_map.mpr ⟨m1, hm1, rfl⟩
+  obtain ⟨m2, hm2, e2⟩ := List.mem_map.mp hmem
+  simp only [Prod.mk.injEq] at e2
+  obtain ⟨x1, l1, reg1⟩ := a1 m1 hm1
+  obtain ⟨x2, l2, reg2⟩ := a2 m2 hm2
+  rw [hk1] at l1
+  rw [hl] at l1
+  cases l1
+  refine ⟨x2, by rw [← hk1, ← e2.1]; exact l2, false, nameOf v2 m1.str, .inl ⟨rfl, reg1⟩, .inl ⟨rfl, by rw [← e2.2]; exact reg2⟩⟩
+
 /-- the three invariants together -/
 def Faithful (bt : List Builtin) (F : Facts) (v2 : Bool) (u : U) : Prop := Full bt F v2 u ∧ SN F v2 u
 
@@ -234,6 +264,17 @@ theorem same_name_same_content {bt : List Builtin} {F : Facts} {v2 : Bool} (hc :
   have n2 := found_under_its_name (⟨h2.1.1, h2.2⟩ : NInv bt F v2 u2) n o2 ob2 g2 l2 hob2 s2
   exact desc_objEq (described h1.1 o1 ob1 g1 hob1 s1) (described h2.1 o2 ob2 g2 hob2 s2) (hc n g1 g2 n1 n2)
 
+
+/-- **same_name_same_methods**: … and if they are interfaces with methods, their method tables correspond -/
+theorem same_name_same_methods {bt : List Builtin} {F : Facts} {v2 : Bool} (hc : Consistent F v2) {u1 u2 : U}
+    (h1 : Faithful bt F v2 u1) (h2 : Faithful bt F v2 u2) (n : Name) (o1 o2 : Nat) (ob1 ob2 : Obj) (g1 g2 : Nat)
+    (ms1 ms2 : List GMethod) (hn1 : F.node g1 = .iface ms1) (hn2 : F.node g2 = .iface ms2) (hne : ms1 ≠ [])
+    (l1 : AL.lookup n u1.types = some o1) (l2 : AL.lookup n u2.types = some o2)
+    (hob1 : u1.objs[o1]? = some ob1) (hob2 : u2.objs[o2]? = some ob2) (s1 : ob1.src = some g1) (s2 : ob2.src = some g2) :
+    ∀ (k : Str) (r1 : Nat), AL.lookup k ob1.methods = some r1 → ∃ r2, AL.lookup k ob2.methods = some r2 ∧ Linked u1 u2 r1 r2 := by
+  have n1 := found_under_its_name (⟨h1.1.1, h1.2⟩ : NInv bt F v2 u1) n o1 ob1 g1 l1 hob1 s1
+  have n2 := found_under_its_name (⟨h2.1.1, h2.2⟩ : NInv bt F v2 u2) n o2 ob2 g2 l2 hob2 s2
+  exact desc_iface_methods hn1 hn2 hne (described h1.1 o1 ob1 g1 hob1 s1) (described h2.1 o2 ob2 g2 hob2 s2) (hc n g1 g2 n1 n2)
 
 /-! ## both loaders produce faithful universes, in any split and order -/
 open Gengo.Loader
